@@ -17,6 +17,8 @@ def check(ctx):
     R.compare(ctx, rows, proj_all, 'C12 re-subscription / re-application of one operator value',
               nontrivial=lambda c, gd: 'N' in c and gd.get('t1', '-') != '-')
     C04_more.parts_C12(ctx)
+    rows = R.run_kind(ctx, 'reusemulti', shards=4)
+    R.compare(ctx, rows, lambda d: (flag(d), d.get('same'), d.get('built')), 'C12 operator values capturing other observables, applied to several sources', nontrivial=lambda c, gd: True)
     return dict(rule='every catalogue operator x parameters x variants x callbacks x scripts: operator value applied to 2 cold sources, subscribed in reverse order, '
                      '3 sequential + 4 concurrent subscriptions, probe subscription counters; non-trivial = the pipeline delivered something',
                 search=table_search('C12'))
